@@ -8,11 +8,17 @@ RULE = ('all seven queue classes x small stimulus sets (1-3 stimuli, lengths 1..
         'sources): histories pop(a) pause(t) pop(b) resume(t2) pop(rest) with t at EVERY sample position 0..clock (inside a waveform, exactly at '
         'its end, inside a delay, before/after earlier pause points, after the last trial was generated), a second pause/resume pair '
         'at every position for the smallest sets, then seeded random histories of up to 12 operations; every history is run to empty. '
-        'Also pause(None), resume(None), future pause. Non-trivial: the pause removed at least one trial.')
+        'Also pause(None), resume(None), future pause. Coverage-audit block: times off the grid and at half-sample ties, as NumPy scalars / keywords / omitted, '
+        'absolute times that are 0.0 / int 0 (falsy) with the clock elsewhere (negative start offset), the rejection boundary (clock, clock+1, +-0.4, +-0.6 sample), '
+        'pause before any request / while paused / untimed then timed, resume while running / twice / backwards, zero-size requests, declared durations longer / '
+        'shorter than the waveform and 0, trials set up with decrement=False, every source container / trial-count kind / delay kind, constructor variants, '
+        'clone() and get_closest_key while paused, random histories over that whole grammar. Non-trivial: the pause removed at least one trial.')
 TRUSTED = ['harness/queuecore.py']
-ASSUMPTIONS = ['pause/resume times are on the sample grid (T0 + k/fs); the code compares t0+duration > t on the sample grid (after the repair)',
+ASSUMPTIONS = ['pause/resume times are T0 + k/fs with k on or off the grid; the model gets the sample index int(round((t - t0)*fs)) computed with the code\'s own float '
+               'expression, and "not after the clock" / "ends after t" are judged on that index (the code compares on the sample grid after the repair)',
                'a rejected (future) pause ends the history: the property does not say what the state is afterwards',
-               'declared duration == waveform length (sources built by the harness)']
+               'declared durations are whole numbers of samples (they may differ from the waveform length: "ends after t" is about the declared duration)',
+               'trials set up with decrement=False are notified as removed but nothing is restored (requeue docstring); conservation counts decremented trials only']
 FS = [1000.0, 195312.5, 97656.25]
 
 
@@ -179,7 +185,7 @@ def _audit_cases(quick, rng, sets):
         n = rng.randint(1, 3)
         st = []
         for _ in range(n):
-            x = {'len': rng.randint(1, 6), 'trials': rng.randint(1, 3), 'delays': rng.choice([0, 1, 3, None, 1.5, 0.4]),
+            x = {'len': rng.randint(1, 6), 'trials': rng.randint(1, 3), 'delays': rng.choice([0, 1, 3, None, 1.5, 0.4, 0.5, 2.5]),
                  'kind': rng.choice(['array', 'gen', 'cos2', 'i64', 'f32', 'ro', 'view', 'list', 'i16']),
                  'tkind': rng.choice(['int', 'int', 'np', 'float']), 'dkind': rng.choice(['auto', 'np', 'int0'])}
             if rng.random() < 0.25:
